@@ -170,6 +170,7 @@ func (g *Generator) generateMockMethod(
 	gf.P()
 
 	// Fill response fields
+	g.mockNested = 0
 	g.generateMockFieldAssignments(gf, method.Output, "resp", map[string]bool{})
 
 	gf.P("return resp, nil")
@@ -177,6 +178,23 @@ func (g *Generator) generateMockMethod(
 	gf.P()
 
 	return nil
+}
+
+// maxMockNestedMessages bounds the nested messages one mock method fills in. Nested messages are
+// filled in inline, once per path that leads to them: without a bound a response type whose message
+// graph has many paths to the same messages (two fields of the same type layer after layer, messages
+// that all refer to each other) makes the generated method, and the time and memory to generate it,
+// grow exponentially.
+const maxMockNestedMessages = 256
+
+// mockMayNest reports whether the mock may fill in a nested message of this type here: not when the
+// type is already being filled in on the current path (recursion), and not beyond the bound.
+func (g *Generator) mockMayNest(message *protogen.Message, visiting map[string]bool) bool {
+	if visiting[string(message.Desc.FullName())] || g.mockNested >= maxMockNestedMessages {
+		return false
+	}
+	g.mockNested++
+	return true
 }
 
 // generateMockFieldAssignments generates field assignments for a message.
@@ -213,7 +231,7 @@ func (g *Generator) generateMockFieldAssignments(
 				gf.P("// TODO: Handle repeated message field ", fieldName)
 				continue
 			}
-			if visiting[string(field.Message.Desc.FullName())] {
+			if !g.mockMayNest(field.Message, visiting) {
 				continue
 			}
 			gf.P(varName, ".", fieldName, " = &", field.Message.GoIdent, "{}")
@@ -245,7 +263,7 @@ func (g *Generator) generateMockOneofAssignment(
 		gf.P(target, " = &", wrapper, "{", field.GoName, ": ", g.mockScalarExpr(gf, field, mockFieldPath(field)), "}")
 		return true
 	}
-	if visiting[string(field.Message.Desc.FullName())] {
+	if !g.mockMayNest(field.Message, visiting) {
 		return false
 	}
 	gf.P("{")
@@ -288,7 +306,7 @@ func (g *Generator) generateMockMapFieldAssignment(
 			gf.QualifiedGoIdent(valueField.Message.GoIdent),
 			")",
 		)
-		if visiting[string(valueField.Message.Desc.FullName())] {
+		if !g.mockMayNest(valueField.Message, visiting) {
 			return
 		}
 		gf.P(varName, ".", fieldName, "[", sampleKey, "] = &", valueField.Message.GoIdent, "{}")
